@@ -377,7 +377,7 @@ def multiLine (ws : List String) : String :=
     the EXIT trap.  `tb [ign SIG…;] stmt; stmt; …` with statements
       T <a> <operand>…   `trap <action> <operand>…`; a = `-`, `E` (empty string), `c<N>` (`probe N`),
                          `k<N>` (`probe N; kill -s USR2 $$`)
-      TN <operand>…      `trap <operand>…` (no action operand)
+      TN <operand>…      `trap <operand>…` (no action operand)       TX   `trap -z INT` (invalid option)
       P | PP | PC <operand>…   `trap`, `trap -p`, `trap -p <operand>…`
       K SIG | R n | S n | X n  `kill -s SIG $$`, `probe n`, `st n`, `exit n`
       sub a , b …        `( a; b; … )`        cs a , b …   `x=$( a; b; … ); echo "$x"`
@@ -477,6 +477,7 @@ def tbSimple (k : Nat) (inner : Bool) (s : TB) (ws : List String) : Option TB :=
     if inner ∧ a.startsWith "k" then none
     else (actionText a).map fun t => tbTrap s k false (t :: ops)
   | "TN" :: ops => some (tbTrap s k false ops)
+  | ["TX"] => some { s with exit := 2, quit := true }  -- `trap -z INT`: invalid option, hard error
   | ["P"] => some (tbTrap s k false [])
   | ["PP"] => some (tbTrap s k true [])
   | "PC" :: ops => some (tbTrap s k true ops)
@@ -574,7 +575,7 @@ def tbLineRun (line : String) : String :=
     s!"{o}\t{verdict}"
 
 def condsLine : String :=
-  ",".intercalate (allConditions.map fun c => s!"{c}:{condToString c}") ++ "\t-"
+  ",".intercalate (allConditions.map fun c => s!"{c}:{condToString c}") ++ "\tok"
 
 def runLine (line : String) : String :=
   match words line with
